@@ -6,6 +6,7 @@
 (*                                                                                          *)
 (* A scenario is                                                                             *)
 (*   [lim, init |-> <<jobs>>, prods |-> << <<batch, ...>>, ... >>,                         *)
+(*    nils |-> <<ids of the jobs whose func is nil>>,                                        *)
 (*    wic |-> [on, errch \in {"none","err","nil","close"}, cancel],                           *)
 (*    wsc |-> [on, script |-> <<"true"|"false"|"err", ...>>, cancel]]                         *)
 (* Several scenarios are checked in one run: the first action Choose(k) picks one and runs   *)
@@ -15,6 +16,11 @@
 (* length stands for jobQueueSize.  A worker goroutine is identified by the job it holds:    *)
 (*   js[j]: new -> queued -> ready (a goroutine is about to invoke it) -> run -> left (the   *)
 (*   function returned, the worker is about to take the lock) -> fin                         *)
+(* A nil job (queue.go:159 `if job != nil`) is handed over, counted, pushed and popped like   *)
+(* every other job; the worker that gets it skips the call and goes straight for the lock:   *)
+(*   js[j]: new -> queued -> held (a worker goroutine holds it and is about to take the      *)
+(*   lock; it occupies one unit of `running`) -> fin                                         *)
+(* There is no user code in between, hence no Start/Fin and no enter/leave for it.           *)
 EXTENDS ConcQueueP, Integers
 
 CONSTANTS Scens, EagerWake
@@ -51,6 +57,9 @@ NoRv == <<xvars, pvars>>
 
 S == Scens[sc]
 Limit == S.lim
+Nils == SeqSet(S.nils)
+\* what a goroutine that was given job j does first: invoke it, or (nil) go for the lock
+Given(j, nils) == IF j \in nils THEN "held" ELSE "ready"
 Prods == S.prods
 NP == Len(Prods)
 Unlimited == Limit <= 0
@@ -85,9 +94,9 @@ Choose(k) ==
            n == IF s.lim <= 0 THEN Len(s.init) ELSE Min(Len(s.init), s.lim)
        IN /\ running' = n
           /\ queue' = SubSeq(s.init, n + 1, Len(s.init))
-          /\ js' = [j \in Jobs |-> IF \E i \in 1..n : s.init[i] = j THEN "ready"
+          /\ js' = [j \in Jobs |-> IF \E i \in 1..n : s.init[i] = j THEN Given(j, SeqSet(s.nils))
                                    ELSE IF \E i \in (n+1)..Len(s.init) : s.init[i] = j THEN "queued" ELSE "new"]
-          /\ PNew(s.lim, s.init)
+          /\ PNew(s.lim, s.init, SeqSet(s.nils) \cap SeqSet(s.init))
     /\ UNCHANGED <<ppc, pip, wipc, wiwch, wictx, errst, wspc, wswch, wsctx, wsk, rvars>>
 
 Silent ==
@@ -107,7 +116,7 @@ Batch(p) == Prods[p][pip[p]]
 Call(p) ==
     /\ Gate /\ p <= NP /\ ppc[p] = "idle" /\ pip[p] <= Len(Prods[p])
     /\ ppc' = [ppc EXCEPT ![p] = "cs"]
-    /\ PCallEnq(Client(p), Batch(p))
+    /\ PCallEnq(Client(p), Batch(p), SeqSet(Batch(p)) \cap Nils)
     /\ UNCHANGED <<sc, running, queue, js, pip, wipc, wiwch, wictx, errst, wspc, wswch, wsctx, wsk, rvars>>
 
 \* queue.go:46-61
@@ -117,7 +126,7 @@ EnqCS(p) ==
            res == EnqLoop(b, 1, running, queue)
        IN /\ running' = res.r
           /\ queue' = res.q
-          /\ js' = [j \in Jobs |-> IF j \in res.st THEN "ready"
+          /\ js' = [j \in Jobs |-> IF j \in res.st THEN Given(j, Nils)
                                    ELSE IF j \in SeqSet(b) THEN "queued" ELSE js[j]]
           /\ IF Len(b) # 0 THEN Broadcast ELSE UNCHANGED <<wiwch, wswch>>
           /\ PRetEnq(Client(p), Len(res.q), res.r)
@@ -140,11 +149,11 @@ Fin(j) ==
     /\ PLeave(j)
     /\ UNCHANGED <<sc, running, queue, ppc, pip, wipc, wiwch, wictx, errst, wspc, wswch, wsctx, wsk, rvars>>
 
-\* queue.go:163-171: pop the next job, or retire and broadcast
-WorkerCS(j) ==
-    /\ Gate /\ js[j] = "left"
+\* queue.go:163-171: the worker that is through with job j pops the next job (whatever it is: the
+\* decision is jobOk, not the popped value), or retires and broadcasts
+TakeNext(j) ==
     /\ IF queue # <<>>
-       THEN /\ js' = [js EXCEPT ![j] = "fin", ![Head(queue)] = "ready"]
+       THEN /\ js' = [js EXCEPT ![j] = "fin", ![Head(queue)] = Given(Head(queue), Nils)]
             /\ queue' = Tail(queue)
             /\ UNCHANGED <<running, wiwch, wswch>>
        ELSE /\ js' = [js EXCEPT ![j] = "fin"]
@@ -152,6 +161,13 @@ WorkerCS(j) ==
             /\ Broadcast
             /\ UNCHANGED queue
     /\ UNCHANGED <<sc, ppc, pip, wipc, wictx, errst, wspc, wsctx, wsk, rvars, pvars>>
+
+WorkerCS(j) == Gate /\ js[j] = "left" /\ TakeNext(j)
+
+\* the same critical section of a worker that holds nil job j (it had nothing to call).  Workers
+\* holding a nil job cannot be told apart from outside: every NilCS(j) is the controller move
+\* "wcs:nil" (fam_conc.LABEL_RULES).
+NilCS(j) == Gate /\ js[j] = "held" /\ TakeNext(j)
 
 -----------------------------------------------------------------------------
 (* WaitIdle *)
@@ -237,7 +253,7 @@ CancelWS ==
 Next ==
     \/ \E k \in 1..Len(Scens) : Choose(k)
     \/ \E p \in 1..MaxP : Call(p) \/ EnqCS(p)
-    \/ \E j \in Jobs : Start(j) \/ Fin(j) \/ WorkerCS(j)
+    \/ \E j \in Jobs : Start(j) \/ Fin(j) \/ WorkerCS(j) \/ NilCS(j)
     \/ CallWI \/ WICS \/ WIWake \/ WIWakeCtx \/ WIWakeErr \/ CancelWI \/ FireErr
     \/ CallWS \/ WSCS \/ WSWake \/ WSWakeCtx \/ CancelWS
 
@@ -250,7 +266,7 @@ LibQuiet ==
     /\ sc # 0 /\ ~Silent
     /\ \A p \in 1..MaxP : ppc[p] = "idle"
     /\ wipc # "cs" /\ wspc # "cs"
-    /\ \A j \in Jobs : js[j] # "left"
+    /\ \A j \in Jobs : js[j] \notin {"left", "held"}
 
 AllDone ==
     /\ sc # 0
@@ -260,17 +276,25 @@ AllDone ==
 TypeOK ==
     /\ running \in 0..MaxJ
     /\ wipc \in {"idle", "cs", "sel", "done"} /\ wspc \in {"idle", "cs", "sel", "done"}
-    /\ \A j \in Jobs : js[j] \in {"new", "queued", "ready", "run", "left", "fin"}
+    /\ \A j \in Jobs : js[j] \in {"new", "queued", "ready", "run", "left", "held", "fin"}
+    /\ \A j \in Jobs : js[j] \in {"ready", "run", "left"} => (sc # 0 /\ j \notin Nils)
+    /\ \A j \in Jobs : js[j] = "held" => (sc # 0 /\ j \in Nils)
 
 \* implementation invariants
-Counter == sc # 0 => running = Cardinality({j \in Jobs : js[j] \in {"ready", "run", "left"}})
+Counter == sc # 0 => running = Cardinality({j \in Jobs : js[j] \in {"ready", "run", "left", "held"}})
 QueueAgree == sc # 0 => SeqSet(queue) = {j \in Jobs : js[j] = "queued"}
 Full == (sc # 0 /\ queue # <<>>) => (~Unlimited /\ running = Limit)
 Bounded == (sc # 0 /\ ~Unlimited) => running <= Limit
 \* liveness as safety (model level only; C18 does not demand it): an idle queue wakes WaitIdle
 WIIdleWakes == (LibQuiet /\ wipc = "sel") => ~(running = 0 /\ queue = <<>>)
 \* ... and everything handed over has run once everything is done
-DoneAllRan == AllDone => \A j \in enqd : runc[j] = 1
+DoneAllRan == AllDone => \A j \in enqd : runc[j] = (IF j \in Nils THEN 0 ELSE 1)
+\* X-level reading of "idle means done" including nil jobs: in the state in which WaitIdle answers nil
+\* (WICS) every job that was handed over has been taken by a worker and given up again -- a nil job is
+\* finished once the worker that took it has been through its next critical section
+IdleAllTaken == (sc # 0 /\ running = 0 /\ queue = <<>>) => \A j \in Jobs : js[j] \in {"new", "fin"}
+\* the monitor was told about exactly the nil jobs handed over so far
+NilAgree == sc # 0 => nilj = Nils \cap DOMAIN runc
 QuietInv == LibQuiet => QuietOK(Ready)
 ModelSafe == Safe_C18 /\ NoHarnessError
 =============================================================================
